@@ -363,6 +363,23 @@ func Triples() []Scenario {
 	}
 }
 
+// QueryTriples: every multiset of three of the short query operations on ONE shared decoded
+// object of each version (84 scenarios): three readers at once, which is where a reader that
+// quietly writes (a lazily filled field, an in-place normalisation) needs two other threads to
+// show.
+func QueryTriples() []Scenario {
+	names := []string{"v3 Score", "v3 Severity", "v3 GetError", "v3 Encode/String", "v2 Score", "v2 Encode/String", "v2 GetError"}
+	var out []Scenario
+	for a := 0; a < len(names); a++ {
+		for b := a; b < len(names); b++ {
+			for c := b; c < len(names); c++ {
+				out = append(out, Scenario{names[a] + " || " + names[b] + " || " + names[c] + " [shared object]", []int{opIndex(names[a]), opIndex(names[b]), opIndex(names[c])}, true})
+			}
+		}
+	}
+	return out
+}
+
 // SameEntry reports whether the scenario involves a shared object or the same entry point twice
 // (the pairs explored at the higher preemption bound in the quick tier).
 func (s Scenario) SameEntry() bool {
